@@ -403,6 +403,8 @@ Proof.
   destruct Hg as [[[HF HCo] HCi] HX].
   destruct (crossings_b_spec So Si HX) as [_ [_ HTi]].
   apply nest_groups_gen; try assumption.
+  - intro Hl. apply plain_outer_split; assumption.
+  - intro Hl. apply plain_inner_split; assumption.
   - intros Hl Hrow. apply inner_constraints2; assumption.
   - intros Hl Hrow Hconst. apply outer_constraints2; assumption.
 Qed.
